@@ -22,7 +22,7 @@ pub uninterp spec fn f64_nan() -> f64;
 pub fn vf64_nan() -> (r: f64)
     ensures r == f64_nan()
 { f64::NAN }
-pub uninterp spec fn f64_max() -> f64;
+// (the spec constant f64_max() and the fact f64::MAX == f64::MAX live in float.rs)
 #[verifier::external_body]
 pub fn vf64_max() -> (r: f64)
     ensures r == f64_max()
